@@ -1209,7 +1209,7 @@ def field_store_kinds(repo, tier):
                                 stores.append((n, t1, isinstance(t, (ast.Tuple, ast.List))))
                 if not stores:
                     continue
-                kk = K.Kinds(fn, anns, mk.call_kinds)
+                kk = K.Kinds(fn, anns, mk.call_kinds, call_parts=mk.call_parts)
                 why = []
                 for n, t1, unpacked in stores:
                     allowed = K.ann_kinds(anns[t1.attr])
@@ -1220,7 +1220,7 @@ def field_store_kinds(repo, tier):
                     elif isinstance(n, ast.AugAssign):
                         kinds = kk.of(ast.BinOp(left=ast.Attribute(value=ast.Name(id=me, ctx=ast.Load()), attr=t1.attr, ctx=ast.Load()), op=n.op, right=n.value))
                     else:
-                        kinds = kk.of(n.value)
+                        kinds = kk.of_stmt(n, n.value) or {"unknown"}
                     bad = K.fits(kinds, allowed)
                     if bad:
                         why.append(f"line {n.lineno}: self.{t1.attr} (declared {ast.unparse(anns[t1.attr])}) = {ast.unparse(n.value)[:60]} may be {', '.join(bad)}")
